@@ -87,9 +87,13 @@ def r1_settings_gates(ctx, P, D):
     ctx.floor(R, "shrink-side position writes / reclaim calls gated by SHRINKS", n_s, 5)
 
 
-def impl_method(P, self_prefix, trait_suffix, name):
+def impl_method(P, self_prefix, trait_suffix, name, crate_trait_only=True):
     out = []
     for im in P.facts["impls"]:
+        if crate_trait_only and im.get("trait_krate") != "bump_scope":
+            continue
+        if not crate_trait_only and im.get("trait_krate") == "bump_scope":
+            continue
         if im["self_ty"].startswith(self_prefix) and (im.get("trait") or "").endswith(trait_suffix):
             for it in im["items"]:
                 if it["name"] == name and it["id"] in P.raw_bodies:
@@ -139,6 +143,18 @@ def r2_wrappers(ctx, P, D):
                         ok_any = True
         ctx.inst(R, b.path, ok_any and bool(te), "the aligned arm returns the caller's own pointer (no move, no reclaim)"
                  if ok_any else "no arm returns the caller's own pointer", where=b.where(), site="returns old ptr")
+    # foreign Allocator traits (allocator-api2, nightly) implemented for the wrappers: must dispatch to the crate-trait
+    # impl of the *same wrapper type* (which is the no-op), never to the wrapped allocator
+    for prefix, nm in (("without_dealloc::WithoutDealloc<", "deallocate"), ("without_dealloc::WithoutShrink<", "shrink")):
+        for b in impl_method(P, prefix, "Allocator", nm, crate_trait_only=False):
+            tg = []
+            for s, t in b.calls():
+                if t["f"].get("name") == nm:
+                    res = t["f"].get("res") or {}
+                    tg.append(res.get("path", t["f"]["path"]))
+            ok = len(tg) == 1 and tg[0].startswith("<" + prefix) and tg[0].endswith("as alloc::Allocator>::" + nm)
+            ctx.inst(R, b.path, ok, f"foreign-trait {nm} dispatches to {tg}" + ("" if ok else " — expected the crate-trait impl "
+                     "of the same wrapper (the no-op)"), where=b.where(), site="compat dispatch")
     wss = impl_method(P, "without_dealloc::WithoutShrink<", "BumpAllocatorTyped", "shrink_slice")
     ctx.need(len(wss) >= 1, R, "impl BumpAllocatorTyped for WithoutShrink: shrink_slice")
     for b in wss:
